@@ -79,7 +79,7 @@ class Probe:
     """Downstream observer.  events = [[kind, value, tid]] in order of call ENTRY ('N' value, 'E' repr, 'C' None).
     overlaps = [[kind, tid, [[kind, tid] of the calls of other threads in flight]]]."""
 
-    def __init__(self, name, raise_at=None, window_factory=None, yield_in_cb=True, dispose_at=None, disposer=None):
+    def __init__(self, name, raise_at=None, window_factory=None, yield_in_cb=True, dispose_at=None, disposer=None, sleep_at=None):
         self.name = name
         self.events = []
         self.times = []  # fake-clock microseconds at call entry, parallel to events
@@ -93,6 +93,8 @@ class Probe:
         self.dispose_at = dispose_at  # call disposer() from inside delivery number dispose_at (on the delivering thread)
         self.disposer = disposer
         self.disposed_in_cb = None
+        self.sleep_at = sleep_at or {}  # {call index: seconds}: the callback blocks that long on the fake clock (a slow consumer)
+        self.slept = []
 
     def _call(self, kind, value):
         tid = det.current_tid()
@@ -108,6 +110,9 @@ class Probe:
         try:
             if self.yield_in_cb:
                 det.yield_point("probe:" + kind)
+            if idx in self.sleep_at:
+                self.slept.append(idx)
+                det.CEvent().wait(self.sleep_at[idx])
             if kind == "N" and self.window_factory is not None and hasattr(value, "subscribe"):
                 child = self.window_factory(self, len(self.children))
                 self.children.append(child)
